@@ -59,6 +59,14 @@ macro_rules! wk_kind {
         fn scc_of(g: &G) -> Option<Vec<Vec<usize>>> {
             Some(g.scc().iter().map(|c| c.iter().map(|n| ku(n.key())).collect()).collect())
         }
+        fn order_run(root: &N, post: bool, nodes: bool, out: &mut crate::exec_ext::SearchOut) {
+            let mut b = if post { root.postorder() } else { root.preorder() };
+            if nodes {
+                out.list_nodes = b.search_nodes().iter().map(|n| ku(n.key())).collect();
+            } else {
+                out.list_edges = b.search_edges().iter().map(|e| (ku(e.source().key()), ku(e.target().key()), eu(e.value()))).collect();
+            }
+        }
         fn q(n: &N, v: usize) -> String {
             let k = kk(v);
             let fo = n.find_outbound(&k).map(|x| ku(x.key()));
@@ -79,6 +87,14 @@ macro_rules! wk_kind {
         }
         fn scc_of(_g: &G) -> Option<Vec<Vec<usize>>> {
             None
+        }
+        fn order_run(root: &N, post: bool, nodes: bool, out: &mut crate::exec_ext::SearchOut) {
+            let mut b = if post { root.order().post() } else { root.order().pre() };
+            if nodes {
+                out.list_nodes = b.search_nodes().iter().map(|n| ku(n.key())).collect();
+            } else {
+                out.list_edges = b.search_edges().iter().map(|e| (ku(e.source().key()), ku(e.target().key()), eu(e.value()))).collect();
+            }
         }
         fn q(n: &N, v: usize) -> String {
             let k = kk(v);
@@ -298,6 +314,15 @@ macro_rules! wk_mod {
                                 "pfs-max" => run!(root.pfs().max()),
                                 _ => return "bad-op".into(),
                             }
+                            oracle_in = Some((spec.clone(), out));
+                            crate::exec_ext::show_search(&spec, &oracle_in.as_ref().unwrap().1)
+                        }
+                        "order" if t.len() == 6 && t[4] == "none" && (t[2] == "fwd" || t[2] == "default") => {
+                            // order <pre|post> fwd <root> none <nodes|edges>
+                            let spec = crate::exec_ext::parse_search(&t);
+                            let root = node(p(3));
+                            let mut out = crate::exec_ext::SearchOut::empty();
+                            order_run(&root, t[1] == "post", t[5] == "nodes", &mut out);
                             oracle_in = Some((spec.clone(), out));
                             crate::exec_ext::show_search(&spec, &oracle_in.as_ref().unwrap().1)
                         }
